@@ -8,7 +8,6 @@ wt=$(mktemp -d /tmp/seedwt.XXXX); rmdir $wt
 git -C /repo worktree add -q --detach $wt HEAD || exit 2
 res=""
 cd $wt
-cp $seed/$(basename $demo 2>/dev/null) /dev/null 2>&1
 demofile=$(ls $seed/demo_test.go $seed/demo/main.go 2>/dev/null | head -1)
 [ -n "$DEMOFILE" ] && demofile=$seed/$DEMOFILE
 mkdir -p $(dirname v3/$demo); cp $demofile v3/$demo
